@@ -42,7 +42,11 @@ def _parser():
         common.load_repo()
         import hotxlfp
         p = hotxlfp.Parser()
-        p.on('callCellValue', lambda cell, done: (_EVENTS.append(cell.label), done(1)))
+        def on_cell(cell, done):
+            from hotxlfp.helper.cell import to_label
+            _EVENTS.append('%s|%s|%d|%d' % (cell.label, to_label(cell.row, cell.col), bool(cell.row.is_absolute), bool(cell.col.is_absolute)))
+            done(1)
+        p.on('callCellValue', on_cell)
         p.on('callRangeValue', lambda start, end, done: (_EVENTS.append(start.label + ':' + end.label), done([[1, 2], [3, 4]])))
         _PARSER.append(p)
     return _PARSER[0]
@@ -178,6 +182,16 @@ def cases(rng, ctx):
     for _ in range(150 * scale):
         col = ''.join(rng.choice(string.ascii_letters) for _ in range(rng.choice([1, 2, 3])))
         out.append({'kind': 'formula', 's': rng.choice(['', '$']) + col + rng.choice(['', '$']) + str(rng.randrange(1, 5000))})
+    # the same address several times in one formula (and, over the run, in one process) with different $ patterns and cases:
+    # every reference is decomposed on its own
+    for _ in range(250 * scale):
+        col = ''.join(rng.choice('ABCXYZ') for _ in range(rng.choice([1, 1, 2])))
+        row = str(rng.randrange(1, 40))
+        refs = []
+        for _k in range(rng.choice([2, 2, 3])):
+            c2 = col if rng.random() < 0.6 else col.lower()
+            refs.append(rng.choice(['', '$']) + c2 + rng.choice(['', '$']) + row)
+        out.append({'kind': 'formula', 's': '+'.join(refs)})
     # non-labels
     # (ß ı ſ ﬁ ﬆ: characters that str.upper() turns into ASCII letters; K: the Kelvin sign, which str.lower() turns into k)
     junk_alphabet = 'Aa1$ -_.:\n\t١éАßıſﬁﬆ\u212a'
@@ -283,8 +297,15 @@ def oracle(c, impl_ans):
         ev = [common.dec_str(t) for t in impl_ans.split(' ')[1:] if t]
         f = c['s']
         if all(ord(ch) < 128 for ch in f):
-            if label_shaped(f) and ev != [f.upper()]:
-                return 'the formula %r is one cell label, the cell events raised are %r' % (f, ev)
+            labs = f.split('+')
+            if all(label_shaped(x) for x in labs):
+                want = []
+                for x in labs:
+                    body = x.lstrip('$')
+                    want.append('%s|%s|%d|%d' % (x.upper(), x.upper(), '$' in body, x.startswith('$')))
+                if ev != want:
+                    return ('the formula %r is made of the cell labels %r; the cell events (label | recomposed parts | row $ | column $) '
+                            'are %r, expected %r' % (f, labs, ev, want))
             return None
         if ev:
             return 'the formula %r holds no cell label (its letters part is not ASCII letters), yet cell/range events %r were raised' % (f, ev)
